@@ -458,8 +458,8 @@ class NeedMarker(Need):
             for enact in frame.enacts:  # avoid adding redundant marker
                 if (isinstance(enact.actor, acting.Actor) and
                         enact.actor.name == kind and
-                        enact.parms['share'].name == share.name and
-                        enact.parms['marker'] == marker):
+                        getattr(enact.parms.get('share'), 'name', None) == share.name and
+                        enact.parms.get('marker') == marker):
                     found = True
                     break
 
